@@ -33,6 +33,9 @@ PROPS["C09"] = {
         {"name": "C09_memory_rounding", "status": "proved", "statement": "forall 8 <= m < 2^32, one lane: memory_blocks = 4*floor(m/4), segment_length = floor(m/4) >= 2, 0 <= m - memory_blocks < 4"},
         {"name": "C09_index_is_rfc", "status": "proved", "statement": "forall positions the filling loop visits, forall 32-bit J1, segment length 2 .. 2^32/7: index_alpha in wrapping u32/u64 arithmetic = RFC 9106's reference-set mapping over unbounded integers (no wrap)"},
         {"name": "C09_index_safe", "status": "proved", "statement": "the referenced block is inside the lane; first pass: already written (same lane: before the previous block; other lane: earlier slice); later passes: never the block being written nor (same lane) the previous one, never the current segment of another lane"},
+        {"name": "C09_fill_segment_indices_in_range", "status": "proved", "statement": "forall geometries argon2_hash can set up (any lane count), forall pass / lane / slice and ANY block contents: with every Vec index of the filling loop checked (previous, current, reference block; address table) no check fails -- argon2.rs cannot panic on an index"},
+        {"name": "C09_geometry", "status": "proved", "statement": "forall accepted memory sizes (one lane): the instance argon2_hash builds has that geometry (4 segments of floor(m/4) >= 2 blocks, memory of exactly lane_length blocks)"},
+        {"name": "C09_geometry_kept", "status": "proved", "statement": "fill_segment preserves the geometry, so it holds at every call of every pass"},
         {"name": "C09_verify_iff", "status": "proved", "statement": "PwHash::verify = Ok iff re-hashing the offered password with the stored salt and config gives exactly the stored bytes (so it accepts the password that produced the hash; rejecting every other password is Argon2 collision resistance)"},
         {"name": "C09_rfc9106_argon2id", "status": "proved", "statement": "TEST (vm_compute): the model reproduces RFC 9106 section 5.3 (t=3, m=32, p=4, secret, associated data)"},
         {"name": "C09_rfc9106_argon2i", "status": "proved", "statement": "TEST (vm_compute): the model reproduces RFC 9106 section 5.2"},
@@ -43,7 +46,7 @@ PROPS["C09"] = {
     "rule": "output lengths (every residue mod 32 around 64, 96, 128; 16..1100) x both algorithms at 8 KiB; password lengths 0..300 (thorough: all; quick: the BLAKE2b block edges of the pre-hash); pass counts 1..6 x memory sizes 8 KiB..1 MiB (thorough: every KiB 8..64, up to 4 MiB) including non-multiples of 4 KiB and of 1 KiB; salts of 8..100 bytes; out-of-range opslimit / memlimit (incl. values whose low 32 bits are in range) / outlen 0..15 / salt 0..7; PwHash::hash_with_salt / verify with near-miss passwords and resized stored hashes. "
             "search: libsodium wherever its interface applies (16-byte salt; t >= 3 for Argon2i). correspondence: the extracted model for the small-memory cases and everything libsodium cannot take. non-trivial: all cases (each reaches the hash or its validation)",
     "modelled": ["src/argon2.rs is modelled by hand (Impl/Argon2.v: flat memory, fill_segment offsets, index_alpha with explicit u32/u64 wrap, generate_addresses, fill_block with the 16 index lists), validated on the two RFC 9106 vectors inside Coq and tied to the crate by correspondence",
-                 "Vec indexing is totalised with nth (Refine proves the reference index in range; the prev/curr offsets are in range by construction of the loop, checked by correspondence)",
+                 "Vec indexing is totalised with nth in the executable model; Refine/Argon2Safe.v re-runs the filling loop with every index checked and proves the check never fails (C09_fill_segment_indices_in_range)",
                  "BLAKE2b: Impl/Blake2b.v proved = RFC 7693; tables regenerated from the source each run"],
     "assumptions": ["libsodium's crypto_pwhash is the reference for 'equals libsodium'",
                     "'rejects every other password' beyond verify_iff: Argon2 / BLAKE2b collision resistance",
